@@ -70,14 +70,24 @@ def d1_norm(c1: int, c2: int, c3: int, c4: int, c5: int) -> bool:
 
 
 @lemma('D1.empty', 'C15', timeout=60, covers=['block_token.py:Document.__init__'],
-       note="s = '' is one concrete case: outputs of '', '\\n', [], [''] agree")
+       note="s = '' and s = '\\n' are concrete cases: every input form gives the same output under the Html, Markdown and Ast renderers")
 def d1_empty(dummy: bool) -> bool:
     """
     post: _
     """
     import mistletoe
-    outs = [mistletoe.markdown(x) for x in ('', '\n', [], ['\n'], FakeFile(''))]
-    return all(o == outs[0] for o in outs)
+    from mistletoe.markdown_renderer import MarkdownRenderer
+    from mistletoe.ast_renderer import AstRenderer
+    for R in (mistletoe.HtmlRenderer, MarkdownRenderer, AstRenderer):
+        # the empty text in every form (a renderer that keeps blank lines would show a stray one)
+        outs = [mistletoe.markdown(x, R) for x in ('', [], FakeFile(''), iter([]))]
+        if not all(o == outs[0] for o in outs):
+            return False
+        # one blank line in every form
+        outs = [mistletoe.markdown(x, R) for x in ('\n', ['\n'], [''], FakeFile('\n'))]
+        if not all(o == outs[0] for o in outs):
+            return False
+    return True
 
 
 class _Out:
